@@ -8,19 +8,6 @@ From PV Require Import Base.Exn Base.Values Base.Ann Base.PyCall Model.CheckerCf
 Import ListNotations.
 Open Scope list_scope.
 
-(* a parameter the first checking pass fills from the positional values (when positional calls are allowed) *)
-Definition req1 (c : call) (p : param) : bool :=
-  no_default p && match kw_get (p_name p) (c_kwargs c) with None => true | Some _ => false end.
-
-(* the first pass skips at most as many positional values in front of *args as CPython binds to named parameters:
-   (receiver counted by the implementation) + (values it takes for named parameters) + (receiver of the undecorated callable)
-   <= (receiver the wrapper got) + (positional parameters only a positional value can fill) *)
-Definition star_offset_ok (f : fn) (c : call) : bool :=
-  Nat.leb ((if is_instance_method f then 1 else 0)
-           + List.length (filter (req1 c) (filter (fun p => negb (is_star p)) (params_without_self f)))
-           + List.length (c_twin_recv c))
-          (List.length (c_recv c) + List.length (filter (req_pos (kw_names c)) (full_params f))).
-
 Section C03.
   Variable pc : pedantic_cfg.
   Variable check : ann -> value -> tvenv -> outcome unit * tvenv.
@@ -52,46 +39,6 @@ Section C03.
       destruct (clazz_probe f c inst); [|discriminate].
       destruct (check a v (a_tv st)) as [[uu|e] tv'] eqn:E; [|discriminate].
       inversion H; subst. simpl. split; [|split; reflexivity]. exists (a_tv st), tv'. now destruct uu.
-    Qed.
-
-    Lemma pass_named_ok : forall ps idx st st', pass_named ps idx st = Ok st' ->
-      a_idx st' = idx + List.length (filter (req1 c) ps) /\
-      a_checked st' = a_checked st ++ map p_name ps /\
-      forall p, In p ps -> exists a, p_ann p = Some a /\
-        (forall v, kw_get (p_name p) (c_kwargs c) = Some v -> accepted a v) /\
-        (forall d, kw_get (p_name p) (c_kwargs c) = None -> p_default p = Some d -> accepted a d).
-    Proof.
-      induction ps as [|p ps IH]; intros idx st st' H.
-      - simpl in H. inversion H; subst. simpl. rewrite app_nil_r. split; [lia|]. split; [reflexivity|]. intros p [].
-      - cbn [Pedantic.pass_named] in H.
-        destruct (p_ann p) as [a|] eqn:Ea; [|discriminate].
-        set (st1 := {| a_tv := a_tv st; a_cons := a_cons st; a_checked := a_checked st ++ [p_name p]; a_idx := a_idx st |}) in *.
-        assert (Hrest : forall v s idx' (Hb : Exn.bind (chk a v s st1) (pass_named ps idx') = Ok st'),
-                 accepted a v /\ a_idx st' = idx' + List.length (filter (req1 c) ps) /\
-                 a_checked st' = a_checked st ++ map p_name (p :: ps) /\
-                 forall q, In q ps -> exists a0, p_ann q = Some a0 /\
-                   (forall v0, kw_get (p_name q) (c_kwargs c) = Some v0 -> accepted a0 v0) /\
-                   (forall d, kw_get (p_name q) (c_kwargs c) = None -> p_default q = Some d -> accepted a0 d)).
-        { intros v s idx' Hb. destruct (chk a v s st1) as [st2|e] eqn:Ec; [|discriminate]. simpl in Hb.
-          destruct (chk_ok _ _ _ _ _ Ec) as [Hacc [Hch _]]. destruct (IH _ _ _ Hb) as [Hi' [Hc' Hall]].
-          split; [assumption|]. split; [assumption|]. split; [|assumption].
-          rewrite Hc', Hch. unfold st1. simpl. now rewrite <- app_assoc. }
-        simpl filter. unfold req1 at 1, no_default.
-        destruct (kw_get (p_name p) (c_kwargs c)) as [v|] eqn:Ek.
-        + destruct (Hrest _ _ _ H) as [Hacc [Hi [Hc Hall]]]. rewrite andb_false_r. split; [assumption|]. split; [assumption|].
-          intros q [->|Hq]; [|auto]. exists a. split; [assumption|]. split.
-          * intros v0 E0. rewrite Ek in E0. inversion E0; subst. assumption.
-          * intros d E0. rewrite Ek in E0. discriminate.
-        + destruct (p_default p) as [d|] eqn:Ed.
-          * destruct (Hrest _ _ _ H) as [Hacc [Hi [Hc Hall]]]. simpl. split; [assumption|]. split; [assumption|].
-            intros q [->|Hq]; [|auto]. exists a. split; [assumption|]. split.
-            -- intros v0 E0. rewrite Ek in E0. discriminate.
-            -- intros d0 _ E0. rewrite Ed in E0. inversion E0; subst. assumption.
-          * destruct (negb (should_have_kwargs pc f) && Nat.ltb idx (List.length (wargs c))); [|discriminate].
-            destruct (Hrest _ _ _ H) as [Hacc [Hi [Hc Hall]]]. simpl. split; [lia|]. split; [assumption|].
-            intros q [->|Hq]; [|auto]. exists a. split; [assumption|]. split.
-            -- intros v0 E0. rewrite Ek in E0. discriminate.
-            -- intros d0 _ E0. rewrite Ed in E0. discriminate.
     Qed.
 
     Lemma chk_all_ok : forall a l st st', chk_all a l st = Ok st' ->
@@ -157,37 +104,15 @@ Section C03.
   Lemma wargs_wsrc_length : forall c, List.length (wargs c) = List.length (wsrc c).
   Proof. intros c. unfold wargs, wsrc, arg_srcs. now rewrite !app_length, !map_length, seq_length. Qed.
 
-  (* the guards under which the parameters the implementation walks over are the declared ones:
-     a signature CPython can build without positional-only parameters, only the receiver may be called
-     `self`, a bound first argument is a receiver *)
-  Definition sig_ok (f : fn) : bool :=
-    no_posonly (f_params f) && one_star (f_params f) && distinct (map p_name (full_params f))
-    && forallb (fun p => negb (Nat.eqb (p_name p) self_name)) (declared f)
-    && match f_bound f with Some _ => f_recv f | None => true end.
-
   Lemma tl_incl : forall {A} (l : list A) x, In x (tl l) -> In x l.
   Proof. intros A [|a l] x H; simpl in *; [assumption|now right]. Qed.
 
-  Lemma declared_incl : forall f p, sig_ok f = true -> In p (declared f) -> In p (f_params f) /\ In p (full_params f).
-  Proof.
-    intros f p Hs H. unfold sig_ok in Hs. repeat (apply andb_true_iff in Hs; destruct Hs as [Hs ?]).
-    unfold declared, full_params, func_params in *.
-    destruct (f_bound f) as [[n o]|].
-    - subst. rewrite H0 in H. simpl in H. split; [assumption|now right].
-    - destruct (f_recv f); [apply tl_incl in H|]; split; assumption.
-  Qed.
-
-  (* the same without the exclusion of positional-only parameters (C04 excludes only calls that use such a NAME as a keyword) *)
+  (* the guards under which the parameters the implementation walks over are the declared ones: a signature CPython can build
+     (at most one *args / **kwargs, distinct names), only the receiver may be called `self`, a bound first argument is a receiver *)
   Definition sig_base (f : fn) : bool :=
     one_star (f_params f) && distinct (map p_name (full_params f))
     && forallb (fun p => negb (Nat.eqb (p_name p) self_name)) (declared f)
     && match f_bound f with Some _ => f_recv f | None => true end.
-
-  Lemma sig_ok_base : forall f, sig_ok f = true -> sig_base f = true /\ no_posonly (f_params f) = true.
-  Proof.
-    intros f H. unfold sig_ok in H. repeat (apply andb_true_iff in H; destruct H as [H ?]).
-    split; [|assumption]. unfold sig_base. now rewrite H3, H2, H1, H0.
-  Qed.
 
   Lemma declared_incl_base : forall f p, sig_base f = true -> In p (declared f) -> In p (f_params f) /\ In p (full_params f).
   Proof.
@@ -197,6 +122,20 @@ Section C03.
     - subst. rewrite H0 in H. simpl in H. split; [assumption|now right].
     - destruct (f_recv f); [apply tl_incl in H|]; split; assumption.
   Qed.
+
+  (* ... and every parameter that takes positional values is declared before *args (Python's syntax) *)
+  Fixpoint star_last (ps : list param) : bool :=
+    match ps with
+    | [] => true
+    | p :: ps' => (if is_varpos p then forallb (fun r => negb (takes_positional r)) ps' else true) && star_last ps'
+    end.
+  Definition sig_ok (f : fn) : bool := sig_base f && star_last (f_params f).
+
+  Lemma sig_ok_base : forall f, sig_ok f = true -> sig_base f = true.
+  Proof. intros f H. unfold sig_ok in H. now apply andb_true_iff in H as [H _]. Qed.
+
+  Lemma declared_incl : forall f p, sig_ok f = true -> In p (declared f) -> In p (f_params f) /\ In p (full_params f).
+  Proof. intros f p H. apply declared_incl_base. now apply sig_ok_base. Qed.
 
   Lemma find_param_spec : forall n ps p, find_param n ps = Some p -> In p ps /\ p_name p = n.
   Proof.
@@ -212,155 +151,60 @@ Section C03.
       apply in_map_iff in Hs as [x [<- _]]; exact I.
   Qed.
 
-  (* every supplied value of the statement has been accepted by the checker when the argument phase succeeds *)
-  Lemma supplied_accepted : forall f c inst st' b,
-    sig_ok f = true -> star_offset_ok f c = true ->
-    twin_binding f c = Ok b ->
-    args_phase pc check consumes f c inst astate0 = Ok st' ->
-    forall oa v, In (oa, v) (supplied_of f c b) -> exists a, oa = Some a /\ accepted a v.
-  Proof.
-    intros f c inst st' b Hsig Hoff Hb Hargs oa v Hin.
-    rewrite (args_phase_ref pc check consumes good) in Hargs.
-    destruct (run_pass pc check consumes f c inst PNamed astate0) as [st1|e] eqn:E1; [|discriminate]. cbn [Exn.bind] in Hargs.
-    destruct (run_pass pc check consumes f c inst PVarPos st1) as [st2|e] eqn:E2; [|discriminate]. cbn [Exn.bind] in Hargs.
-    unfold run_pass in E1, E2, Hargs.
-    destruct (pass_named_ok f c inst _ _ _ _ E1) as [Hidx1 [Hchk1 Hnamed]]. simpl in Hchk1.
-    pose proof Hsig as Hsig0. unfold sig_ok in Hsig0. repeat (apply andb_true_iff in Hsig0; destruct Hsig0 as [Hsig0 ?]).
-    rename Hsig0 into Hnopos, H into Hbound, H0 into Hnoself, H1 into Hdist, H2 into Hone.
-    unfold supplied_of in Hin. apply in_flat_map in Hin as [[n sl] [Hnb Hin]]. simpl in Hin.
-    destruct (find_param n (declared f)) as [p|] eqn:Ef; [|contradiction].
-    destruct (find_param_spec _ _ _ Ef) as [Hpd Hpn].
-    destruct (declared_incl f p Hsig Hpd) as [Hpf Hpfull].
-    unfold twin_binding in Hb.
-    destruct (py_bind_slots _ _ _ _ (twin_pos_src c) Hb _ _ Hnb) as [q [Hq [Hqn Hslot]]].
-    assert (q = p) by (eapply distinct_unique; [exact Hdist|assumption|assumption|congruence]). subst q.
-    assert (Hns : negb (Nat.eqb (p_name p) self_name) = true) by (rewrite forallb_forall in Hnoself; now apply Hnoself).
-    assert (Hpw : In p (params_without_self f)) by (apply filter_In; split; assumption).
-    destruct sl as [s|l|ks].
-    - (* a single object *)
-      destruct s as [o|i|k|k]; try contradiction.
-      + (* explicit keyword *)
-        simpl in Hslot. destruct Hslot as [-> [Htk Hmem]].
-        destruct (kw_get (p_name p) (c_kwargs c)) as [v0|] eqn:Ek; simpl in Hin; [|contradiction].
-        destruct Hin as [E|[]]. inversion E; subst.
-        assert (Hnst : In p (filter (fun p0 => negb (is_star p0)) (params_without_self f))).
-        { apply filter_In. split; [assumption|]. unfold takes_kw in Htk. unfold is_star, is_varpos, is_varkw.
-          destruct (p_kind p); try discriminate; reflexivity. }
-        destruct (Hnamed p Hnst) as [a [Ha [Hkw _]]]. exists a. split; [assumption|]. now apply Hkw.
-      + (* omitted but defaulted *)
-        simpl in Hslot. destruct Hslot as [-> [Hd [Hstar Hk]]].
-        destruct (p_default p) as [d|] eqn:Ed; [|congruence]. simpl in Hin. destruct Hin as [E|[]]. inversion E; subst.
-        assert (Hnst : In p (filter (fun p0 => negb (is_star p0)) (params_without_self f))).
-        { apply filter_In. split; [assumption|]. now rewrite Hstar. }
-        assert (Htk : takes_kw p = true).
-        { unfold takes_kw. unfold no_posonly in Hnopos. rewrite forallb_forall in Hnopos. specialize (Hnopos p Hpf).
-          unfold is_star, is_varpos, is_varkw in Hstar. destruct (p_kind p); try discriminate; reflexivity. }
-        destruct (Hnamed p Hnst) as [a [Ha [_ Hdf]]]. exists a. split; [assumption|]. apply Hdf; [|assumption].
-        apply kw_get_not_mem. now apply Hk.
-    - (* an element of *args *)
-      simpl in Hslot. apply in_flat_map in Hin as [s [Hs Hin]].
-      destruct s as [o|i|k|k]; simpl in Hin; try contradiction.
-      destruct (nth_error (c_args c) i) as [v0|] eqn:En; simpl in Hin; [|contradiction].
-      destruct Hin as [E|[]]. inversion E; subst.
-      apply andb_true_iff in Hone as [Hone1 Hone2]. apply Nat.leb_le in Hone1.
-      assert (Hfil : filter is_varpos (params_without_self f) = [p]).
-      { apply filter_single; [|assumption|assumption].
-        unfold params_without_self. eapply Nat.le_trans; [apply filter_filter_length|exact Hone1]. }
-      rewrite Hfil in E2. unfold pass_varpos in E2.
-      destruct (p_ann p) as [a|] eqn:Ea; [|discriminate]. exists a. split; [reflexivity|].
-      destruct (chk_all_ok f c inst _ _ _ _ E2) as [_ Hall].
-      (* the element sits behind everything the first pass skipped *)
-      destruct (py_bind_star _ _ _ _ _ _ Hb Hnb) as [consumed [Epos Hcnt]].
-      apply In_nth_error in Hs as [k Hk].
-      assert (Hpos : nth_error (twin_pos c) (List.length consumed + k) = Some (SArg i)).
-      { rewrite Epos, nth_error_app2 by lia. now replace (List.length consumed + k - List.length consumed) with k by lia. }
-      assert (Hat : List.length consumed + k = List.length (c_twin_recv c) + i).
-      { unfold twin_pos, arg_srcs in Hpos.
-        destruct (Nat.lt_ge_cases (List.length consumed + k) (List.length (c_twin_recv c))) as [Hlt|Hge].
-        - rewrite nth_error_app1 in Hpos by (now rewrite map_length).
-          apply nth_error_In in Hpos. apply in_map_iff in Hpos as [x [Ex _]]. discriminate.
-        - rewrite nth_error_app2 in Hpos by (now rewrite map_length). rewrite map_length in Hpos.
-          assert (Hin' : In (SArg i) (map SArg (seq 0 (List.length (c_args c))))) by (eapply nth_error_In; eassumption).
-          assert (Hlen : List.length consumed + k - List.length (c_twin_recv c) < List.length (c_args c)).
-          { apply nth_error_Some_lt in Hpos. now rewrite map_length, seq_length in Hpos. }
-          rewrite (nth_error_map_seq _ _ Hlen) in Hpos. inversion Hpos. lia. }
-      apply Nat.leb_le in Hoff. rewrite Hidx1 in Hall.
-      apply (Hall v (SArg i)). eapply In_skipn with (k := List.length (c_recv c) + i).
-      + unfold wargs, wsrc, arg_srcs. rewrite combine_app_nth by (now rewrite map_length).
-        apply nth_error_combine_args. assumption.
-      + unfold star_offset_ok in Hoff. lia.
-    - (* a value of **kwargs *)
-      simpl in Hslot. destruct Hslot as [Hvk ->]. apply in_flat_map in Hin as [k [Hk Hin]].
-      destruct (kw_get k (c_kwargs c)) as [v0|] eqn:Ek; simpl in Hin; [|contradiction].
-      destruct Hin as [E|[]]. inversion E; subst.
-      apply filter_In in Hk as [Hkin Hknot]. apply negb_true_iff in Hknot.
-      apply andb_true_iff in Hone as [Hone1 Hone2]. apply Nat.leb_le in Hone2.
-      assert (Hfil : filter is_varkw (params_without_self f) = [p]).
-      { apply filter_single; [|assumption|assumption].
-        unfold params_without_self. eapply Nat.le_trans; [apply filter_filter_length|exact Hone2]. }
-      rewrite Hfil in Hargs. unfold pass_varkw in Hargs.
-      destruct (p_ann p) as [a|] eqn:Ea; [|discriminate]. exists a. split; [reflexivity|].
-      destruct (chk_all_ok f c inst _ _ _ _ Hargs) as [_ Hall].
-      apply (Hall v (SKw k)). apply in_map_iff. exists (k, v). split; [reflexivity|].
-      apply filter_In. split; [now apply kw_get_In|]. simpl.
-      (* k is not the name of a parameter that takes keywords, hence not among the names of the first pass *)
-      rewrite (pass_varpos_checked f c inst _ _ _ E2), Hchk1.
-      apply negb_true_iff. apply mem_false. intros Hkin2. apply mem_false in Hknot. apply Hknot.
-      apply in_map_iff in Hkin2 as [r [Hrn Hr]]. apply filter_In in Hr as [Hr Hrs].
-      apply filter_In in Hr as [Hr _].
-      unfold kw_param_names. apply in_map_iff. exists r. split; [assumption|].
-      apply filter_In. split.
-      + unfold full_params, func_params. destruct (f_bound f) as [[? ?]|]; [now right|assumption].
-      + unfold no_posonly in Hnopos. rewrite forallb_forall in Hnopos. specialize (Hnopos r Hr).
-        unfold takes_kw. unfold is_star, is_varpos, is_varkw in Hrs. destruct (p_kind r); try discriminate; reflexivity.
-  Qed.
+  (* every value of the statement - supplied by keyword, by default, as *args element, as **kwargs value, or positionally for a
+     named parameter - read off CPython's own binding of the call *)
+  Definition all_values (f : fn) (c : call) (b : binding) : list (option ann * value) := supplied_of f c b ++ positional_values f c b.
+  (* "has been accepted by the checker when the argument phase succeeds" (proved in Proofs/PedanticPos.v) *)
+  Definition phase_sound (f : fn) (c : call) (b : binding) : Prop :=
+    forall inst st', args_phase pc check consumes f c inst astate0 = Ok st' ->
+    forall oa v, In (oa, v) (all_values f c b) -> exists a, oa = Some a /\ accepted a v.
 
   (* ---------------- the argument guard ---------------- *)
   Theorem args_guard : forall f c bd b a v,
-    sig_ok f = true -> star_offset_ok f c = true -> twin_binding f c = Ok b ->
-    In (Some a, v) (supplied_of f c b) -> rejected a v ->
+    phase_sound f c b -> In (Some a, v) (all_values f c b) -> rejected a v ->
     snd (run pc check consumes f c bd) = [] /\ exists e, fst (run pc check consumes f c bd) = Raise e.
   Proof.
-    intros f c bd b a v Hsig Hoff Hb Hin Hrej. rewrite (run_is_ref pc check consumes good). unfold run_ref.
+    intros f c bd b a v Hps Hin Hrej. rewrite (run_is_ref pc check consumes good). unfold run_ref.
     destruct (instance_of f c) as [inst|e]; [|simpl; split; eauto].
     destruct (assert_uses_kwargs pc f c) as [u|e]; [|simpl; split; eauto].
     destruct (args_phase pc check consumes f c inst astate0) as [st|e] eqn:Ea; [|simpl; split; eauto].
-    exfalso. destruct (supplied_accepted f c inst st b Hsig Hoff Hb Ea _ _ Hin) as [a' [E Hacc]].
+    exfalso. destruct (Hps inst st Ea _ _ Hin) as [a' [E Hacc]].
     inversion E; subst. eapply rejected_not_accepted; eassumption.
   Qed.
 
   (* the same guard for generator functions: the generator object is not even created *)
   Theorem args_guard_gen : forall f c b a v,
-    sig_ok f = true -> star_offset_ok f c = true -> twin_binding f c = Ok b ->
-    In (Some a, v) (supplied_of f c b) -> rejected a v ->
+    phase_sound f c b -> In (Some a, v) (all_values f c b) -> rejected a v ->
     snd (run_gen pc check consumes f c) = [] /\ exists e, fst (run_gen pc check consumes f c) = Raise e.
   Proof.
-    intros f c b a v Hsig Hoff Hb Hin Hrej. rewrite (run_gen_is_ref pc check consumes good). unfold run_gen_ref.
+    intros f c b a v Hps Hin Hrej. rewrite (run_gen_is_ref pc check consumes good). unfold run_gen_ref.
     destruct (instance_of f c) as [inst|e]; [|simpl; split; eauto].
     destruct (assert_uses_kwargs pc f c) as [u|e]; [|simpl; split; eauto].
     destruct (args_phase pc check consumes f c inst astate0) as [st|e] eqn:Ea; [|simpl; split; eauto].
-    exfalso. destruct (supplied_accepted f c inst st b Hsig Hoff Hb Ea _ _ Hin) as [a' [E Hacc]].
+    exfalso. destruct (Hps inst st Ea _ _ Hin) as [a' [E Hacc]].
     inversion E; subst. eapply rejected_not_accepted; eassumption.
   Qed.
 
   (* property setters: the assigned value is checked although it arrives positionally *)
   Theorem setter_guard : forall f c bd p a r x,
     t_setter (f_text f) = true -> is_instance_method f = true ->
-    params_without_self f = [p] -> is_star p = false -> p_default p = None -> p_ann p = Some a ->
+    params_without_self f = [p] -> takes_positional p = true -> p_ann p = Some a ->
     c_recv c = [r] -> c_args c = [x] -> kw_get (p_name p) (c_kwargs c) = None ->
     rejected a x ->
     snd (run pc check consumes f c bd) = [] /\ exists e, fst (run pc check consumes f c bd) = Raise e.
   Proof.
-    intros f c bd p a r x Hts Him Hpw Hstar Hd Ha Hr Hx Hk Hrej. rewrite (run_is_ref pc check consumes good). unfold run_ref.
+    intros f c bd p a r x Hts Him Hpw Htp Ha Hr Hx Hk Hrej.
+    assert (Hstar : is_star p = false) by (unfold takes_positional in Htp; unfold is_star, is_varpos, is_varkw; destruct (p_kind p); try discriminate; reflexivity). rewrite (run_is_ref pc check consumes good). unfold run_ref.
     destruct (instance_of f c) as [inst|e]; [|simpl; split; eauto].
     destruct (assert_uses_kwargs pc f c) as [u|e]; [|simpl; split; eauto].
     assert (E : exists e, args_phase pc check consumes f c inst astate0 = Raise e).
     { rewrite (args_phase_ref pc check consumes good).
       assert (E1 : exists e, run_pass pc check consumes f c inst PNamed astate0 = Raise e).
-      { unfold run_pass. rewrite Hpw. cbn [filter]. rewrite Hstar. cbn [negb pass_named]. rewrite Ha, Hk, Hd, Him.
+      { unfold run_pass. rewrite Hpw. cbn [filter]. rewrite Hstar. cbn [negb pass_named]. rewrite Ha, Hk, Him.
+        replace (if takes_keyword p then None else None) with (@None value) by (now destruct (takes_keyword p)).
         assert (Hs : should_have_kwargs pc f = false).
         { rewrite (should_have_kwargs_ref pc good). unfold ref_shk, name_atoms. cbn [at_setter at_wants_args]. now rewrite Hts. }
-        rewrite Hs. unfold wargs, wsrc, arg_srcs. rewrite Hr, Hx. simpl.
+        rewrite Hs, Htp. unfold wargs, wsrc, arg_srcs. rewrite Hr, Hx. simpl.
         unfold chk. destruct (clazz_probe f c inst); [|simpl; eauto].
         destruct (Hrej []) as [e He]. simpl a_tv. destruct (check a x []) as [[uu|e'] tv']; simpl in He; [discriminate|]. simpl. eauto. }
       destruct E1 as [e E1]. rewrite E1. simpl. eauto. }
@@ -396,9 +240,9 @@ Section C03.
       { intros v s idx' st1 Hb. destruct (chk check consumes f c inst a v s st1) as [st2|e'] eqn:Ec; simpl in Hb.
         - eapply IH; eassumption.
         - inversion Hb; subst. eapply chk_raises; eassumption. }
-      destruct (kw_get (p_name p) (c_kwargs c)); [eapply Hb; eassumption|].
-      destruct (p_default p); [eapply Hb; eassumption|].
-      destruct (negb (should_have_kwargs pc f) && Nat.ltb idx (List.length (wargs c))); [eapply Hb; eassumption|now inversion H].
+      destruct (if takes_keyword p then kw_get (p_name p) (c_kwargs c) else None); [eapply Hb; eassumption|].
+      destruct (takes_positional p && negb (should_have_kwargs pc f) && Nat.ltb idx (List.length (wargs c))); [eapply Hb; eassumption|].
+      destruct (p_default p); [eapply Hb; eassumption|now inversion H].
     Qed.
 
     Lemma chk_all_raises : forall p a l st e, In p (f_params f) -> p_ann p = Some a ->
@@ -432,20 +276,19 @@ Section C03.
   End Exact.
 
   Theorem args_guard_exact : forall f c bd b a v,
-    sig_ok f = true -> star_offset_ok f c = true -> twin_binding f c = Ok b ->
-    In (Some a, v) (supplied_of f c b) -> rejected a v ->
+    phase_sound f c b -> In (Some a, v) (all_values f c b) -> rejected a v ->
     (is_instance_method f = true -> wargs c <> []) ->
     assert_uses_kwargs pc f c = Ok tt ->
     (forall inst, instance_of f c = Ok inst -> clazz_probe f c inst = Ok tt) ->
     (forall p a0, In p (f_params f) -> p_ann p = Some a0 -> forall v0 tv e, fst (check a0 v0 tv) = Raise e -> e = PTypeCheckC) ->
     run pc check consumes f c bd = (Raise PTypeCheckC, []).
   Proof.
-    intros f c bd b a v Hsig Hoff Hb Hin Hrej Hinst Hauk Hprobe Hptc.
+    intros f c bd b a v Hps Hin Hrej Hinst Hauk Hprobe Hptc.
     rewrite (run_is_ref pc check consumes good). unfold run_ref.
     destruct (instance_of f c) as [inst|e] eqn:Ei.
     - rewrite Hauk.
       destruct (args_phase pc check consumes f c inst astate0) as [st|e] eqn:Ea.
-      + exfalso. destruct (supplied_accepted f c inst st b Hsig Hoff Hb Ea _ _ Hin) as [a' [E Hacc]].
+      + exfalso. destruct (Hps inst st Ea _ _ Hin) as [a' [E Hacc]].
         inversion E; subst. eapply rejected_not_accepted; eassumption.
       + rewrite (args_phase_raises f c inst (Hprobe inst eq_refl) Hptc _ _ Ea). reflexivity.
     - exfalso. unfold instance_of in Ei. destruct (is_instance_method f); [|discriminate].
